@@ -130,6 +130,19 @@ def run(ctx, extra_profiles=()):
         extra_cov = dict(pool_foreign_puts=st["extra"].get("foreign_puts", 0), pool_events_validated=ptot["lines"])
         tot["lines"] += ptot["lines"]
         tot["judged"] += ptot["judged"]
+    if ctx.prop == "C20":      # zero-channel / zero-capacity pool allocators: decided with Pool.tla
+        import pool_family
+        st = ctx.record("poolzero")
+        pm, ptot = pool_family.pool_mismatches(ctx, [st])
+        ctx.note("pool: %d get/use/put cycles on zero-shaped allocators, %d events validated, %d mismatches" % (st["extra"].get("zero_pool_cycles", 0), ptot["lines"], len(pm)))
+        for n, m in enumerate(pm[:20]):
+            path = save_replay(ctx, 1000 + n, pool_family.trace_prefix_pool(m["file"], m["line"]))
+            print("VIOLATION property=C20 replay=%s" % path)
+            print("  pool: at line %d: op=%s class=%s expected=%s observed=%s" % (m["line"], m["op"], m["cls"], m["exp"], m["got"]))
+            extra_viol += 1
+        extra_cov = dict(zero_pool_cycles=st["extra"].get("zero_pool_cycles", 0), pool_events_validated=ptot["lines"])
+        tot["lines"] += ptot["lines"]
+        tot["judged"] += ptot["judged"]
     if ctx.prop == "C05":      # value clause: FloatAsFloat preserves values (exact / nearest float32), never clips
         import num_family
         st = ctx.record("floatfloat")
